@@ -213,7 +213,7 @@ ADDED = {
     "C17": " Also full RTL builds with Kronecker-factored sub-lattices and the same structures built in processes with different PYTHONHASHSEED.",
     "C18": " Also the same data held in an integer array.",
     "C19": " Also factors of magnitude 3e-7 / 1e-12 / 1e3 next to exact zeros, keypoints not starting at 0 and learned keypoints.",
-    "C20": " Also inputs up to +-1e6 on every side.",
+    "C20": " Also inputs up to +-1e6 on every side, and per configuration the call traced with an unknown batch size, batch-of-one calls and a float64 layer.",
 }
 
 
